@@ -31,7 +31,7 @@ class ModelCloud:
         self.requests: list = []                 # (path, fields)
         self.errors: list = []                   # verification failures (the oracle)
         self.posts: dict = {}                    # path -> number of POSTs seen
-        self.fault_script: dict = {}             # path -> list of faults consumed per POST: ok|timeout|http500|http404|connect|api:<code>
+        self.fault_script: dict = {}             # path -> list of faults consumed per POST: ok|timeout|http<status>|connect|api:<code>
         self.tokenlists: dict = {}               # udpid -> explicit token list (else a single matching entry)
         self.shuffle = 0
         self.known = None                        # if a set: only these udpids are registered (strict cloud) ...
@@ -81,10 +81,8 @@ class ModelCloud:
             raise httpx.ReadTimeout("simulated timeout", request=request)
         if fault == "connect":
             raise httpx.ConnectError("simulated connect failure", request=request)
-        if fault == "http500":
-            return httpx.Response(500, text="internal error")
-        if fault == "http404":
-            return httpx.Response(404, text="not found")
+        if fault.startswith("http"):
+            return httpx.Response(int(fault[4:]), text="simulated http status")
         # verify the request like a conforming server
         if request.method != "POST":
             self._bad(path, f"method {request.method}")
@@ -199,10 +197,8 @@ class ModelSmartHome(ModelCloud):
             raise httpx.ReadTimeout("simulated timeout", request=request)
         if fault == "connect":
             raise httpx.ConnectError("simulated connect failure", request=request)
-        if fault == "http500":
-            return httpx.Response(500, text="internal error")
-        if fault == "http404":
-            return httpx.Response(404, text="not found")
+        if fault.startswith("http"):
+            return httpx.Response(int(fault[4:]), text="simulated http status")
         if request.method != "POST":
             self._bad(path, f"method {request.method}")
         if url.netloc != SH_HOST or url.scheme != "https" or url.path != "/mas/v5/app/proxy":
